@@ -167,9 +167,15 @@ def run_history(case, second=False):
             del chunk[:]
             rows = [mkrow(r) for r in rowspecs]
             array = fsarray(rows) if kind == "fsarray" else rows
+            if kind == "fsassign":
+                # an FSArray filled by whole-row assignment a[i] = row: its declared width says nothing about its rows' lengths
+                from curtsies.formatstringarray import FSArray
+                array = FSArray(len(rows), min([len(r) for r in rows], default=0))
+                for k_, r_ in enumerate(rows):
+                    array[k_] = r_
             if case.get("reuse"):
                 # the caller keeps ONE buffer object and edits it in place between renders (what an application's paint loop does)
-                if kind == "fsarray":
+                if kind in ("fsarray", "fsassign"):
                     if "fs" in persist:
                         persist["fs"].rows[:] = array.rows
                         persist["fs"].num_columns = array.num_columns
@@ -284,7 +290,7 @@ def family():
                         r2 = [(r1[i] if same and i < n1 else _row(2, i, W)) for i in range(n2)]
                         yield dict(H=H, W=W, pre=pre, up=0, col=0, keep=idx % 3 == 0, hide=idx % 4 < 2,
                                    renders=[[r1, [max(0, n1 - 1), (idx // 2) % W], "list"],
-                                            [r2, [(idx // 3) % max(1, n2), W - 1], ("fsarray" if idx % 5 == 0 else "list")]])
+                                            [r2, [(idx // 3) % max(1, n2), W - 1], ("fsarray" if idx % 5 == 0 else "fsassign" if idx % 5 == 1 else "list")]])
     # the cursor higher than the end of the earlier output (old lines on and below the window's first row) / in another column
     for H in range(2, 6):
         for W in (2, 5):
@@ -330,7 +336,7 @@ def rand_case(seed):
                 rows.append(prev[i + 1])                # last time's rows moved up by one (what a scroll does to the screen)
             else:
                 rows.append(rng.choice(rowpool))
-        renders.append([rows, [rng.randrange(max(1, n)), rng.randrange(W)], "fsarray" if rng.random() < .25 else "list"])
+        renders.append([rows, [rng.randrange(max(1, n)), rng.randrange(W)], rng.choice(["fsarray"] * 5 + ["fsassign"] * 3 + ["list"] * 12)])
         prev = rows
     return dict(H=H, W=W, pre=pre, up=up, col=col, keep=rng.random() < .5, hide=rng.random() < .5, renders=renders)
 
